@@ -582,4 +582,93 @@ mod v_iface_egress6 {
         crate::vassert!(plen == 36, "prop:c10_ipv6_payload_length_matches_payload");
         crate::vassert!(sum1071(f, 62, 28, pseudo6(f, 14, 58, 28)) == 0xffff, "prop:c10_icmpv6_checksum_valid");
     }
+
+    #[cfg(feature = "proto-ipv6")]
+    fn m3_case<const B: usize>() {
+        let data: [u8; 4] = kani::any();
+        let ident: u16 = kani::any();
+        let icmp = Icmpv6Repr::EchoReply { ident, seq_no: 2, data: &data[..] };
+        let ip = Ipv6Repr { src_addr: Ipv6Address::from(LL), dst_addr: Ipv6Address::from(GL), next_header: IpProtocol::Icmpv6, payload_len: 12, hop_limit: 64 };
+        let packet = Packet::new_ipv6(ip, IpPayload::Icmpv6(icmp));
+        let mut buf = [0u8; B];
+        let mut caps = DeviceCapabilities::default();
+        caps.max_transmission_unit = 1500;
+        packet.emit_payload(&IpRepr::Ipv6(ip), &mut buf[54..66], &caps);
+        kani::cover!(buf[58] == 7, "reached");
+        assert!(get16(&buf, 58) == ident, "prop:c10_x");
+    }
+    // @harness props=C10 cfg=KI6i tier=t to=900 mem=8 unwind=6 opts=nomem covers=1
+    #[cfg(feature = "proto-ipv6")]
+    #[kani::proof]
+    pub(crate) fn m3a() {
+        m3_case::<128>();
+    }
+    // @harness props=C10 cfg=KI6i tier=t to=900 mem=8 unwind=6 opts=nomem,fs200 covers=1
+    #[cfg(feature = "proto-ipv6")]
+    #[kani::proof]
+    pub(crate) fn m3b() {
+        m3_case::<128>();
+    }
+    // @harness props=C10 cfg=KI6i tier=t to=1500 mem=24 unwind=6 opts=nomem,fs80 covers=1
+    #[cfg(feature = "proto-ipv6")]
+    #[kani::proof]
+    pub(crate) fn m3c() {
+        m3_case::<66>();
+    }
+
+    // ------------------------------------------------------------------------------------------------ IGMP (IPv4)
+    #[cfg(all(feature = "proto-ipv4", feature = "multicast", feature = "medium-ethernet"))]
+    const OWN4: [u8; 4] = [192, 168, 1, 1];
+
+    /// Ethernet + IPv4 header of an IGMP message (RFC 791, RFC 1112 6.4, RFC 2236 2): returns the IPv4 header length
+    #[cfg(all(feature = "proto-ipv4", feature = "multicast", feature = "medium-ethernet"))]
+    fn check_eth_ipv4_igmp(f: &[u8], flen: usize, dst: &[u8; 4]) -> usize {
+        crate::vassert!(flen >= 14 + 20 + 8 && flen <= MTU + 14, "prop:c10_frame_fits_mtu");
+        // RFC 1112 6.4: 01:00:5e + low 23 bits of the group address
+        crate::vassert!(f[0] == 0x01 && f[1] == 0x00 && f[2] == 0x5e && f[3] == dst[1] & 0x7f && f[4] == dst[2] && f[5] == dst[3], "prop:c10_ethernet_destination_is_multicast_mapping_of_group");
+        crate::vassert!(eq6(f, 6, &OWN_MAC), "prop:c10_ethernet_source_is_own_hardware_address");
+        crate::vassert!(get16(f, 12) == 0x0800, "prop:c10_ethertype_matches_ip_version");
+        crate::vassert!(f[14] >> 4 == 4, "prop:c10_ipv4_version");
+        let ihl = ((f[14] & 0x0f) as usize) * 4;
+        crate::vassert!(ihl >= 20 && 14 + ihl + 8 <= flen, "prop:c10_ipv4_header_length_within_frame");
+        let total = get16(f, 16) as usize;
+        crate::vassert!(total == flen - 14 && total == ihl + 8, "prop:c10_ipv4_total_length_matches_frame");
+        crate::vassert!(get16(f, 20) & 0x3fff == 0, "prop:c10_unfragmented_packet_has_no_fragment_fields");
+        crate::vassert!(f[22] == 1, "prop:c10_igmp_ttl_1");
+        crate::vassert!(f[23] == 2, "prop:c10_ipv4_protocol_igmp");
+        crate::vassert!(sum1071(f, 14, ihl, 0) == 0xffff, "prop:c10_ipv4_header_checksum_valid");
+        crate::vassert!(f[26] == OWN4[0] && f[27] == OWN4[1] && f[28] == OWN4[2] && f[29] == OWN4[3], "prop:c10_source_is_own_unicast_address");
+        crate::vassert!(f[30] == dst[0] && f[31] == dst[1] && f[32] == dst[2] && f[33] == dst[3], "prop:c10_igmp_destination");
+        // no options, or exactly the router alert option (RFC 2113): anything else is not validated here
+        crate::vassert!(ihl == 20 || (ihl == 24 && f[34] == 0x94 && f[35] == 4 && f[36] == 0 && f[37] == 0), "prop:c10_ipv4_options_well_formed");
+        ihl
+    }
+
+    // ---- 3b. IGMPv2 membership report (RFC 2236) sent by multicast_egress after joining a group
+    // @harness props=C10 cfg=KM4 tier=q to=900 mem=12 unwind=6 opts=nomem,fs300 covers=1 funcs=Interface::join_multicast_group;Interface::multicast_egress;InterfaceInner::igmp_report_packet;InterfaceInner::dispatch_ip;InterfaceInner::lookup_hardware_addr;Packet::emit_payload;wire::Ipv4Repr::emit;wire::IgmpRepr::emit bounds=Ethernet,_MTU_1500,_time_fixed,_tx_checksums_on;_own_192.168.1.1/24;_any_group_address_224.0.0.0/4_joined;_one_multicast_egress_pass;_device_accepts
+    #[cfg(all(feature = "proto-ipv4", feature = "multicast", feature = "medium-ethernet"))]
+    #[kani::proof]
+    pub(crate) fn frame_wf_igmp_report() {
+        let mut dev = crate::verif_dev::gdev::GDev { medium: Medium::Ethernet, mtu: MTU + 14, checksum: ChecksumCapabilities::default(), tx_ok: true };
+        let now = Instant::from_micros(NOW_US);
+        let mut iface = Interface::new(Config::new(HardwareAddress::Ethernet(EthernetAddress(OWN_MAC))), &mut dev, now);
+        iface.update_ip_addrs(|a| {
+            a.push(IpCidr::new(IpAddress::Ipv4(Ipv4Address::from_octets(OWN4)), 24)).unwrap();
+        });
+        let g: [u8; 4] = kani::any();
+        kani::assume(g[0] >= 224 && g[0] <= 239);
+        let joined = iface.join_multicast_group(Ipv4Address::from_octets(g));
+        iface.multicast_egress(&mut dev);
+        let cap = crate::verif_dev::gdev::captured();
+        crate::vdump!("joined={:?} frames={} frame0={:02x?}", joined, cap.frames, &cap.buf0[..cap.len0]);
+        kani::cover!(cap.frames == 1 && g[3] == 0xaa && g[1] >= 128, "report captured");
+        crate::vassert!(joined.is_ok() && cap.frames == 1, "prop:c10_one_report_per_joined_group");
+        let f = &cap.buf0;
+        // RFC 2236 9: a report is sent to the group being reported
+        let ihl = check_eth_ipv4_igmp(f, cap.len0, &g);
+        let m = 14 + ihl;
+        crate::vassert!(f[m] == 0x16 && f[m + 1] == 0, "prop:c10_igmp_v2_report_type_and_zero_max_resp");
+        crate::vassert!(f[m + 4] == g[0] && f[m + 5] == g[1] && f[m + 6] == g[2] && f[m + 7] == g[3], "prop:c10_igmp_group_address");
+        crate::vassert!(sum1071(f, m, 8, 0) == 0xffff, "prop:c10_igmp_checksum_valid");
+    }
 }
